@@ -430,3 +430,33 @@ fn c15_utils_canary_must_fail() {
 
 #[cfg(verif_replay)]
 include!("/verif/.cache/playback/ab_utils.rs");
+
+// ----------------------------------------------------------------------- in-place contract: batch partition
+
+/// What every batched copy loop relies on, for ALL addresses and counts (no buffer bound): the three phases
+/// tile `0..count` exactly (head bytes, then `chunks` 8-byte words, then tail bytes), head and tail are shorter
+/// than a word, and whenever at least one word is copied the first word starts on an 8-byte boundary - so the
+/// `AtomicU64` accesses are aligned and `head + 8*chunks + tail` never leaves the `count` bytes the caller vouched for.
+pub(super) fn s_batch_partition(ptr_addr: usize, count: usize, r: (usize, usize, usize)) -> bool {
+    let (head, chunks, tail) = r;
+    let (a, n, h, c, t) = (ptr_addr as u128, count as u128, head as u128, chunks as u128, tail as u128);
+    h + 8 * c + t == n
+        && h < 8
+        && t < 8
+        && (c == 0 || (a + h) % 8 == 0)
+        // head is the distance to the next boundary, cut at count: nothing that could go in a word is peeled off bytewise
+        && (h == n || (a + h) % 8 == 0)
+        && (a % 8 != 0 || h == 0)
+}
+
+// ALSO: C02
+// FN: compute_batch_offsets
+#[kani::proof_for_contract(compute_batch_offsets)]
+fn c15_batch_offsets_partition() {
+    let (a, n): (usize, usize) = (kani::any(), kani::any());
+    kani::cover!(a % 8 == 3 && n == 2);
+    kani::cover!(a % 8 == 5 && n > 100);
+    kani::cover!(a % 8 == 0 && n == 7);
+    let r = compute_batch_offsets(a, n);
+    assert!(s_batch_partition(a, n, r)); // mirror of the in-place postcondition (native replay)
+}
